@@ -13,7 +13,9 @@ CLAIMED = {
         'text': 'Seeded simulation of every load/dump entry point over simulated raw devices beneath the real CPython '
                 'text/buffer layers: container and line-framing variants, read/write chunking to 1 byte, EINTR, short '
                 'writes, EIO / premature EOF / ENOSPC / close errors at sampled (quick) or every (thorough, texts <= 400 B) '
-                'byte offset, interleaved lazy decoders. Sampling, not proof.',
+                'byte offset, interleaved lazy decoders, a lazy decoder feeding dump (stream copy) with faults on either side, '
+                'dump/load under BOM codecs on seekable simulated files, results annotated by user code between decodes. '
+                'Sampling, not proof. Every run is also under bounded liveness: a suspected hang (wall clock) is re-executed under a budget of penman line events and only exceeding that logical budget is reported.',
         'note': 'Trusts: CPython io stack, my line splitter and tree writer (independent of penman), penman.loads of the '
                 'same text as the reference meaning. Round-trip equality is top + triple multiset + ordered metadata.',
         'technique': SIM + 'simulated raw I/O devices (chunking, EINTR, EIO, EOF, ENOSPC) under the real io layers, seeded '
@@ -25,7 +27,8 @@ CLAIMED = {
                 'same file twice, stdout, exit status accumulated over the history of inputs) with C09\'s stream faults; an '
                 'independent role-membership reference decides the offending triples per graph, the exit status and the '
                 'error-N metadata; a sample is cross-checked against real `python -m penman` child processes. Model.errors on '
-                'arbitrary triple lists is only sampled through edit histories (disconnect, empty, re-top).',
+                'arbitrary triple lists is only sampled through edit histories (disconnect, empty, re-top, self-loops, duplicates, '
+                'inverted spellings, falsy / target-only tops, island cycles); inputs may already carry error-N metadata. Every run is also under bounded liveness: a suspected hang (wall clock) is re-executed under a budget of penman line events and only exceeding that logical budget is reported.',
         'note': 'Trusts the reference reading of "defined directly or as a single inversion" and of weak connectivity '
                 '(union-find over non-instance triples among source variables). Does not enumerate triple lists x tops.',
         'technique': SIM + 'in-process simulation of the CLI process boundary over SimFS with seeded input-file histories and '
@@ -37,7 +40,8 @@ CLAIMED = {
                 'library pipeline composed from public calls, under sampled option sets (power set of normalisation options x '
                 'formatting x models x stdin/1-3 files) and stream faults; formatting pairs must decode to equal graphs; the '
                 'tool is re-applied to its own output (sequentially and as two concurrently scheduled processes joined by a '
-                'bounded simulated pipe); a sample runs as real child processes under two hash seeds.',
+                'bounded simulated pipe); a sample runs as real child processes (one block-buffered, one unbuffered) under two '
+                'hash seeds; the library reference runs at the library's default log level while main() sets its own. Every run is also under bounded liveness: a suspected hang (wall clock) is re-executed under a budget of penman line events and only exceeding that logical budget is reported.',
         'note': 'Trusts the reference pipeline order taken from docs/command.rst and the statement; blank-line counts across file '
                 'boundaries are only constrained by the normal-form clause (known finding F16); --triples is excluded from feed-back.',
         'technique': SIM + 'in-process CLI process simulation over SimFS, bounded-pipe two-process pipeline under a seeded baton '
@@ -48,7 +52,8 @@ CLAIMED = {
         'text': 'Seeded fault/edit histories on one live Graph: loss, duplication, reordering, misattachment, aliasing and '
                 'staleness of Push/POP markers, reordering of the triple log, content edits, restarts and probes, with encode '
                 'judged after every step against union-find connectivity and multiset content references and under a line-step '
-                'budget (bounded liveness). History/fault-sequence tier: no scheduling or I/O dimension exists in this property.',
+                'budget (bounded liveness); non-string variables in the totality clause. History/fault-sequence tier: no scheduling '
+                'or I/O dimension exists in this property.',
         'note': 'Trusts the reference notions of variable, weak connectivity and content (one deinversion, constants by written '
                 'form). Push on a non-variable target is content by the pinned test_encode and is never injected.',
         'technique': SIM + 'seeded fault sequences on the stored epigraph (marker loss/duplication/reordering/staleness) with '
@@ -58,7 +63,9 @@ CLAIMED = {
     'C12': {
         'text': 'Seeded programs of transformations (CLI order and any other, indicate-branches at most once, restarts) on decoded, '
                 'hand-built, edited and re-topped graphs under default/AMR/custom models with invariants after every step: no '
-                'exception, same top, well-formed, connected, encodes and decodes to itself; contraction/removal clauses.',
+                'exception, same top, well-formed, connected, encodes and decodes to itself; contraction/removal clauses; after '
+                'marker-migrating steps every nested node gets exactly one top-role triple; edits (optionally preceded by queries) '
+                'before and between transformations. Every run is also under bounded liveness: a suspected hang (wall clock) is re-executed under a budget of penman line events and only exceeding that logical budget is reported.',
         'note': 'History tier without scheduling/I-O dimension. Edits that leave a half-deleted node (dangling reference) are '
                 'outside the domain. Known findings F4, F17b, F18b are matched by structural predicates.',
         'technique': SIM + 'seeded operation programs and edit histories (stale/missing markers) on a live object with per-step '
@@ -68,7 +75,8 @@ CLAIMED = {
     'C05': {
         'text': 'Seeded histories of re-layout operations (reconfigure under every key incl. random drawn from a simulator-owned '
                 'PRNG stream, configure+rearrange, encode from another top, adopt, restart) interleaved with reorderings and '
-                'marker loss, with content equality after every re-layout and per-node ordering/stability judgement of rearrange.',
+                'marker loss, with content equality after every re-layout and per-node ordering/stability judgement of rearrange. '
+                'The PRNG stand-in is a complete random.Random. Every run is also under bounded liveness: a suspected hang (wall clock) is re-executed under a budget of penman line events and only exceeding that logical budget is reported.',
         'note': 'History tier; the PRNG seam (S8) and stale markers (S9) are the only nondeterminism/fault seams in it. Role '
                 'alignments are not generated for the ordering clause.',
         'technique': SIM + 'seeded operation histories with a simulator-owned PRNG stream (seeded/constant/decreasing/two-valued) '
@@ -79,9 +87,12 @@ CLAIMED = {
         'text': '2-4 real caller threads on a shared world of read-only graphs/trees/models/codecs under a seeded baton scheduler '
                 '(pre-emption at penman line events): per-operation results must equal a sequential reference execution and '
                 'structural digests of every shared object must equal their pristine values at every context switch and after '
-                'every operation; asynchronous cancellation at sampled (thorough: every) lines and recursion-limit squeeze with '
-                're-issue; pickle, fork and spawn transport; logging level as a knob; every batch re-executed in fresh '
-                'interpreters under other hash seeds; `python -m penman` child processes under two hash seeds.',
+                'every operation (copy.deepcopy frames are pre-emptible too in some runs); asynchronous cancellation at sampled '
+                '(thorough: every) lines and recursion-limit squeeze with re-issue; pickle, fork and spawn transport with a '
+                'reference that never pickles; copied / pickled models must behave like the original; reference and run under '
+                'independently chosen log levels; every batch re-executed in fresh interpreters under other hash seeds; '
+                '`python -m penman` child processes under two hash seeds. A threaded phase that exceeds its step cap is a '
+                'violation. Every run is also under bounded liveness: a suspected hang (wall clock) is re-executed under a budget of penman line events and only exceeding that logical budget is reported.',
         'note': 'Trusts: sys.settrace line events as pre-emption points (stdlib frames atomic), the sequential execution of the '
                 'same code as the reference (consistent changes never alarm), CPython 3.12 with the GIL only. In-place operations '
                 'are applied only to results a client derived itself; aliased sub-objects (marker lists, Tree.metadata) are not '
@@ -94,8 +105,8 @@ CLAIMED = {
     'C15': {
         'text': 'Seeded histories of |, |=, -, -= (incl. self-application), top assignment and construction on a heap of up to '
                 'four graphs with results stored back; every slot (result, operands, bystanders) is compared with a reference '
-                'model and queried after every operation; batches are re-executed under other hash seeds and per-operation '
-                'digests must agree.',
+                'model and queried after a seeded subset of operations; batches are re-executed under other hash seeds and '
+                'per-operation digests must agree. Every run is also under bounded liveness: a suspected hang (wall clock) is re-executed under a budget of penman line events and only exceeding that logical budget is reported.',
         'note': 'History tier; hash randomisation is the nondeterminism seam. Markers of common triples, entries of removed '
                 'triples and result metadata are unconstrained.',
         'technique': SIM + 'seeded operation histories on an aliasing heap against a reference model, hash-seed replicas in '
